@@ -373,5 +373,9 @@ func replay(e *vh.Env, arg string) {
 		emitBetween(e, parseCfg(p[1]), parseTm(p[2]), parseTm(p[3]), parseIds(p[4]), "replay")
 	case "zone":
 		emitZone(e, pi(p[1]))
+	case "held":
+		heldBatch(e, parseCfg(p[1]), parseIds(p[2]), "replay")
+	case "par":
+		parRound(e, parseCfg(p[1]), pi(p[2]), int(pi(p[3])), "replay")
 	}
 }
